@@ -25,10 +25,10 @@ class Cfg:
     """Constants of one BrownianImpl instance."""
 
     def __init__(self, N, Sub=1, Tol=0, CacheSize=2, Halfway=False, DtHint=0, WarmUp=100, QStep=1, ZeroLen=False,
-                 Fuel=12, MaxEval=3, MaxNodes=31):
+                 Fuel=12, MaxEval=3, MaxNodes=31, Legacy=False):
         self.N, self.Sub, self.Tol, self.CacheSize, self.Halfway = N, Sub, Tol, CacheSize, Halfway
         self.DtHint, self.WarmUp, self.QStep, self.ZeroLen = DtHint, WarmUp, QStep, ZeroLen
-        self.Fuel, self.MaxEval, self.MaxNodes = Fuel, MaxEval, MaxNodes
+        self.Fuel, self.MaxEval, self.MaxNodes, self.Legacy = Fuel, MaxEval, MaxNodes, Legacy
 
     @property
     def T(self):
@@ -42,7 +42,7 @@ class Cfg:
         b = lambda x: "TRUE" if x else "FALSE"  # noqa: E731
         s = (f"CONSTANTS N={self.N} Sub={self.Sub} Tol={self.Tol} Halfway={b(self.Halfway)} DtHint={self.DtHint} "
              f"WarmUp={self.WarmUp} QStep={self.QStep} ZeroLen={b(self.ZeroLen)} Fuel={self.Fuel} "
-             f"MaxEval={self.MaxEval} MaxNodes={self.MaxNodes}\n")
+             f"MaxEval={self.MaxEval} MaxNodes={self.MaxNodes} Legacy={b(self.Legacy)}\n")
         s += "CONSTANT CacheSize <- Unlimited\n" if self.CacheSize < 0 else f"CONSTANT CacheSize = {self.CacheSize}\n"
         return s
 
@@ -231,3 +231,77 @@ def path_str(p):
 def spec_tree_to_py(tree_json):
     """ToJson of the spec's tree-as-sequence dump: list of [path, s, e, mid]."""
     return {path_str(e[0]): (e[1], e[2], e[3]) for e in tree_json}
+
+
+# ---------------------------------------------------------------------------------------
+# Replay of model behaviours into the real object
+# ---------------------------------------------------------------------------------------
+
+def replay(cfg, queries, size=(), levy="none", entropy=1234, W=None, H=None, dtype=torch.float64,
+           structural=True):
+    """Run `queries` (pairs of integer sub-units) on a fresh real object.  Returns (bm, steps); each step is the
+    dict of step_real plus 'state' (structural projection after the call, or None)."""
+    bm = make_real(cfg, size=size, levy=levy, entropy=entropy, W=W, H=H, dtype=dtype)
+    steps = []
+    rec = LocRecorder()
+    with rec:
+        for (a, b) in queries:
+            r = step_real(bm, a, b, cfg, levy, rec)
+            r["q"] = (a, b)
+            r["cache_len"] = cache_len(bm)
+            if structural:
+                try:
+                    st, _ = project(bm, cfg.Sub)
+                except ProjectionUnavailable as e:
+                    st = None
+                    r["projection_unavailable"] = str(e)
+                r["state"] = st
+            steps.append(r)
+            if r["exc"]:
+                break
+    return bm, steps
+
+
+def init_state_matches(cfg, beh_tree0=None):
+    return True
+
+
+def compare_with_model(cfg, beh, steps):
+    """Implementation-shaped comparison (-> model drift, never a verdict): pieces, cache order, cursor,
+    warm-up counters after every step and the final tree."""
+    drift = []
+    hist = beh["hist"]
+    for k, (h, r) in enumerate(zip(hist, steps)):
+        if h["err"]:
+            if r["exc"] is None:
+                drift.append(f"step {k} {h['q']}: model predicts {h['err']}, code returned normally")
+            break
+        if r["exc"] is not None:
+            drift.append(f"step {k} {h['q']}: code raised {r['exc']}, model predicts normal return")
+            break
+        st = r.get("state")
+        if st is None:
+            continue
+        spans = [tuple(x) for x in h["spans"]]
+        if r["pieces"] is not None and h["out"] and spans != r["pieces"]:
+            drift.append(f"step {k} {h['q']}: pieces {r['pieces']} != model {spans}")
+        mcache = [path_str(p) for p in h["cache"]]
+        if st["cache"] != mcache:
+            drift.append(f"step {k} {h['q']}: cache {st['cache']} != model {mcache}")
+        if st["last"] != path_str(h["last"]):
+            drift.append(f"step {k} {h['q']}: cursor {st['last']!r} != model {path_str(h['last'])!r}")
+        if len(st["tree"]) != h["nn"]:
+            drift.append(f"step {k} {h['q']}: {len(st['tree'])} nodes != model {h['nn']}")
+        if "nEval" in st and not cfg.Halfway and not cfg.DtHint:
+            if st["nEval"] != h["nEval"]:
+                drift.append(f"step {k}: nEval {st['nEval']} != model {h['nEval']}")
+            if abs(st["treeDt"] - h["treeDt"]) > 1e-9:
+                drift.append(f"step {k}: treeDt {st['treeDt']} != model {h['treeDt']}")
+    if len(steps) == len(hist) and steps and steps[-1].get("state") is not None and not hist[-1]["err"] \
+            and steps[-1]["exc"] is None:
+        mtree = spec_tree_to_py(beh["tree"])
+        if steps[-1]["state"]["tree"] != mtree:
+            a, b = steps[-1]["state"]["tree"], mtree
+            diff = {k: (a.get(k), b.get(k)) for k in set(a) | set(b) if a.get(k) != b.get(k)}
+            drift.append(f"final tree differs: {dict(list(diff.items())[:4])}")
+    return drift
